@@ -7,7 +7,8 @@ Driver for C16.  Op lines (tokens percent-encoded as in `Basic/Proto.lean`):
 * `new <main|proxy> T <n> <entry>*n A <m> <entry>*m S …`     construct a server with these two configured lists
 * `reload <main|proxy> T <n> <entry>*n A <m> <entry>*m S …`  `Reload` of the running server
     entry = `_` (empty after trimming) | `!` (not an address / CIDR) | `<hex ip>/<hex mask>`
-    output: `cfg <trusted> <allow>` (effective lists, `hexip/hexmask` joined by `,`, `-` if empty) or `err`;
+    output: `cfg <trusted> <allow>` (effective lists, `hexip/hexmask` joined by `,`, `-` if empty) or, when the
+    constructor refuses the lists, `err cfg …` with the lists of the fallback server (nothing configured);
     main: the raw `IP` / `Mask` bytes of every `net.IPNet`; proxy (which cannot see the fields): the
     networks as `IPNet.String` prints them, re-read with `net.ParseCIDR`
 * `ip <srv|nil> <tok> X <n> <tok>*n F <m> <tok>*m R …`          `GetRealUserIP`; output = encoded address text
@@ -106,6 +107,7 @@ def learn (j : Judge) : List String → Judge
     match parseList t, parseList a with
     | some tl, some al => { trusted := tl, allow := al, known := true }
     | _, _ => j
+  | "err" :: rest => learn j rest
   | _ => j
 
 
@@ -117,7 +119,7 @@ def step (st : St) (op impl : List String) : St × String × String :=
       match Config.fresh t a with
       | some c => ({ cfg := c, judge := learn st.judge impl }, showCfg s c, "na")
       -- the harness falls back to a server with an empty configuration
-      | none => ({ cfg := Config.default, judge := {} }, "err", "na")
+      | none => ({ cfg := Config.default, judge := learn {} impl }, "err " ++ showCfg s Config.default, "na")
     | _, _ => (st, "bad-op", "na")
   | "reload" :: srv :: rest =>
     match parseServer srv, parseCfg rest with
